@@ -28,6 +28,8 @@ META = {
                    'thorough': 'all boolean tables <= 3x3 plus all 3x4, 4x3 and 4x4 tables (74 410 tables)'},
     'assumptions': ['concept members are read through Concept.extent/.intent'],
 }
+META['rule'] += (' BIGLAT: additionally the Boolean lattice of 16 384 concepts (contranominal scale 14) in the quick '
+                 'tier and those of 32 768 and 65 536 concepts in the thorough tier.')
 
 
 def judge_pairs(sh, pairs, cap, where, complete=True):
@@ -174,7 +176,7 @@ def cases(tier, seed, spec):
     # large extent, a dense 6 000-object table takes minutes)
     yield from (c for c in gen.huge(seed, 8 if tier == 'quick' else 32)
                 if c['fam'].endswith('tall') and len(c['objects']) > 4300 and sum(1 for r in c['rows'] if r) < 200)
-    yield from gen.biglat(tier)
+    yield from gen.biglat(tier, quick_sizes=(14,))
     yield from gen.ctx_stream(tier, seed)
 
 
